@@ -212,6 +212,30 @@ theorem rotation_starts_fresh_file (ls : List Leaf) (s : Sink) (m : Msg)
     (Sink.write ls s m).cur = { initial := 0, msgs := [(s.next, m.disk)] } := by
   refine ⟨by decide, ?_, ?_⟩ <;> simp [Sink.write, hrot]
 
+/-- `append_fits_despite_foreign_writers`: whatever another writer appended to the current file since
+the sink's last write, a message is appended (no rotation) only if it fits behind the REAL end of the
+file – the size test reads the end-of-file position (`file.seek(0, 2)` before `tell()`, pinned shape),
+not the sink's own offset -/
+theorem append_fits_despite_foreign_writers (ls : List Leaf) (S : Int) (hS : Leaf.size S ∈ ls) (s : Sink)
+    (hlen : s.states.length = ls.length) (n : Int) (m : Msg)
+    (hno : (groupCall ls (Sink.foreign s n).states
+      { ctime := (Sink.foreign s n).creation, stamp := m.stamp, bytes := m.bytes, chars := m.chars,
+        tell := (Sink.foreign s n).cur.size }).1 = false) :
+    s.cur.size + n + m.bytes ≤ S ∧ (Sink.write ls (Sink.foreign s n) m).closed = s.closed := by
+  have hfit := group_false_fits ls (Sink.foreign s n).states _ S (by simpa [Sink.foreign] using hlen) hS hno
+  constructor
+  · simp only [Sink.foreign, FileRec.size] at hfit
+    simp only [FileRec.size]
+    omega
+  · unfold Sink.write
+    simp only [hno]
+    simp [Sink.foreign]
+
+/-- the shape it refutes: a sink that trusted its own offset (12 bytes written) would append 5 more
+bytes under a limit of 20 although another writer has meanwhile brought the file to 22 bytes -/
+theorem own_offset_is_not_file_size :
+    rotationSize 12 5 5 20 = false ∧ rotationSize 22 5 5 20 = true := by decide
+
 /-- former finding F4, now a regression theorem: limit 16, messages of 5 characters / 9 bytes –
 every file stays within 16 bytes (one message per file), evaluated on the generated kernel -/
 theorem size_bound_regression :
